@@ -59,7 +59,10 @@ class SafeLearner(Learner):
                 return {k:v[0] for k,v in pred.items()}
             else:
                 row = [p[0] for p in (pred[:-1] if has_kwargs else pred) ]
-                return row[0] if len(row) == 1 else row
+                #a lone column in front of kwargs is a column of actions. A lone column
+                #without kwargs is the pmf of a single action (a column of actions without
+                #kwargs is indistinguishable from, and handled as, row-major order).
+                return row[0] if len(row) == 1 and has_kwargs else row
         else:
             if batch_order == 'row': pred = pred[0]
             return (pred[0] if len(pred)==2 else pred[:-1]) if has_kwargs else pred
